@@ -570,27 +570,45 @@ def _forward_sends(fn: ast.AST) -> list[ast.Call]:
     return out
 
 
+def _shared_reads(e: ast.AST) -> list[ast.Attribute]:
+    """The attribute loads inside `e` (a node of the analysed tree) that evaluate shared runtime state: `<recv>.<attr>`
+    whose receiver chain is `self.<runtime>.<attr>` once the straight-line locals it goes through are substituted at the
+    place of the load (`runtime = self._runtime` … `runtime._active_run_ids`).  The question is where the object comes
+    from, not what it holds, so a local that is also mutated in place is followed too (provenance).  Binding the runtime
+    object or the run id to a local (`self._runtime`, `self.run_id`: one attribute deep, fixed for the adapter's life) is
+    not a read of shared state; the load of `<runtime>.<attr>` is, wherever it is written."""
+    out = []
+    for x in ast.walk(e):
+        if isinstance(x, ast.Attribute) and isinstance(x.ctx, ast.Load):
+            d = dotted(expand(x, x, provenance=True))
+            if d and d.startswith("self.") and d.count(".") >= 2 and not d.endswith(("run_id", "_decorated")):
+                out.append(x)  # self._runtime.<state>
+    return out
+
+
 def _reads_shared(test: ast.AST) -> bool:
-    for x in ast.walk(test):
-        d = dotted(x) if isinstance(x, ast.Attribute) else None
-        if d and d.startswith("self.") and d.count(".") >= 2 and not d.endswith(("run_id", "_decorated")):
-            return True  # self._runtime.<state>
-    return False
+    return bool(_shared_reads(test))
 
 
 def _shared_check_stmts(fn: ast.AST, ifstmt: ast.If) -> list[ast.AST]:
-    """The statements that make up a check of shared liveness state by `ifstmt`: the `if` itself when its test reads
-    `self.<runtime>.<attr>`; when the test is over locals (`active = self.run_id in self._runtime._active_run_ids` …
-    `if active:`), every statement whose right-hand side reads the shared state and may flow into the test (dependence
-    slice, any path) *and* the `if` — the read, not only the branch, has to lie inside the critical section."""
+    """The statements that make up a check of shared liveness state by `ifstmt`: every statement in which shared state
+    `self.<runtime>.<attr>` (receiver resolved through locals, see _shared_reads) is loaded and may flow into the test
+    — the test itself (`if run_id in runtime._active_run_ids:`, either polarity) and/or right-hand sides of locals the
+    test is over (`active = self.run_id in self._runtime._active_run_ids` … `if active:`; dependence slice, any path) —
+    *and* the `if`: the read, not only the branch, has to lie inside the critical section."""
     from ..astx import dep_slice
 
-    if _reads_shared(ifstmt.test):
-        return [ifstmt]
     sl = dep_slice(fn, ifstmt.test)
-    reads = [enclosing_stmt(e) for e in sl.exprs if e is not ifstmt.test and _reads_shared(e)]
-    reads = [r for r in reads if r is not None and r is not ifstmt]
-    return reads + [ifstmt] if reads else []
+    reads: list[ast.AST] = []
+    found = False
+    for e in sl.exprs:
+        if not _shared_reads(e):
+            continue
+        found = True
+        s = ifstmt if e is ifstmt.test else enclosing_stmt(e)
+        if s is not None and s is not ifstmt and not any(s is r for r in reads):
+            reads.append(s)
+    return reads + [ifstmt] if found else []
 
 
 def _check_sources(fn: ast.AST, cfg: CFG, stmt: ast.AST) -> list[ast.AST]:
@@ -812,6 +830,11 @@ def rule_r4(chk) -> None:
         sel_st = enclosing_stmt(sel[0].call)
         cfg = CFG(fn)
         cls_locks = lock_attrs_of_class(cls)
+        # liveness half of the guard, over *all* claiming UPDATEs: when the two claiming cases (`released`; timed-out
+        # `releasing`) are written as separate branches, each with its own UPDATE, a `released` row has to reach at
+        # least one of them; the safety half (never from `active`, from `releasing` only after the timeout) stays an
+        # obligation of every single UPDATE
+        released_claimable: bool | None = None
         for s in ups:
             updates += 1
             up_st = enclosing_stmt(s.call)
@@ -848,14 +871,18 @@ def rule_r4(chk) -> None:
             tmo = fn.args.args[2].arg if len(fn.args.args) > 2 else None
             if tmo is None:
                 raise AnchorError(f"C26.R4: `{cls.name}.try_begin_resume` has no crash-timeout parameter")
+            if released_claimable is None:
+                released_claimable = any(facts_given(cfg, n2, subj, f"{ename}.released", domain, mod=m)[0]
+                                         for s2 in ups for n2 in cfg.nodes_of(enclosing_stmt(s2.call)))
             guarded, why = True, ""
             for n in cfg.nodes_of(up_st):
                 for k in members:
-                    reach_k, facts_k = facts_given(cfg, n, subj, f"{ename}.{k}", domain, mod=m)
                     if k == "released":
-                        if not reach_k:
+                        if not released_claimable:
                             guarded, why = False, "a `released` run can never be claimed (the resume would wait forever)"
-                    elif k == "releasing":
+                        continue
+                    reach_k, facts_k = facts_given(cfg, n, subj, f"{ename}.{k}", domain, mod=m)
+                    if k == "releasing":
                         if reach_k:
                             set_ = (f"{tmo} is None", False) in facts_k or (f"None is {tmo}", False) in facts_k
                             elapsed = any((a_.startswith(f"{tmo} < ") and pol) or (a_.endswith(f" < {tmo}") and not pol) for a_, pol in facts_k)
@@ -1491,6 +1518,19 @@ _R7_HEAD = "        lifecycle = await self._get_lifecycle()\n        if not awai
 _R7_SEND = "        await external.send_event(TickIdleRelease())\n"
 _R7_NOPOP = "        await asyncio.sleep(self._idle_timeout)\n        await self._release_idle_handler(run_id)\n"
 
+# try_begin_resume (postgres): the two claiming cases written as separate branches, each with its own claiming UPDATE
+_R4_PG_OLD = ("                if state == RunLifecycleState.released or (\n                    state == RunLifecycleState.releasing\n                    and crash_timeout_seconds is not None\n"
+              "                    and (datetime.now(timezone.utc) - row[\"updated_at\"]).total_seconds()\n                    > crash_timeout_seconds\n                ):\n"
+              "                    await conn.execute(\n                        f\"UPDATE {self._table_ref} SET state = $1, updated_at = $2 \"\n                        f\"WHERE run_id = $3\",\n"
+              "                        RunLifecycleState.active.value,\n                        datetime.now(timezone.utc),\n                        run_id,\n                    )\n"
+              "                    return RunLifecycleState.released\n")
+_R4_PG_UPD = ("                    await conn.execute(\n                        f\"UPDATE {self._table_ref} SET state = $1, updated_at = $2 \"\n                        f\"WHERE run_id = $3\",\n"
+              "                        RunLifecycleState.active.value,\n                        datetime.now(timezone.utc),\n                        run_id,\n                    )\n"
+              "                    return RunLifecycleState.released\n")
+_R4_PG_REL = "                if state == RunLifecycleState.released:\n"
+_R4_PG_TMO = ("                if (\n                    state == RunLifecycleState.releasing\n                    and crash_timeout_seconds is not None\n"
+              "                    and crash_timeout_seconds < (datetime.now(timezone.utc) - row[\"updated_at\"]).total_seconds()\n                ):\n")
+
 TWINS = [
     # ---- R7 (timer task must not be cancellable through the registry while it owns `releasing`)
     Twin("R7 registry removal in try/finally around sleep and release (seed form)", _DBI, _R7_OLD,
@@ -1587,6 +1627,20 @@ TWINS = [
     Twin("R4 resume claims any releasing run", _LIFE, "                    state == RunLifecycleState.releasing\n                    and crash_timeout_seconds is not None\n                    and (datetime.now(timezone.utc) - row[\"updated_at\"]).total_seconds()\n                    > crash_timeout_seconds\n", "                    state == RunLifecycleState.releasing\n", "C26.R4"),
     Twin("R4 resume claims an active run", _LIFE, "                if state == RunLifecycleState.active:\n                    return None\n                if state == RunLifecycleState.released or (\n                    state == RunLifecycleState.releasing\n                    and crash_timeout_seconds is not None\n                    and (datetime.now(timezone.utc) - row[\"updated_at\"])", "                if state == RunLifecycleState.active and crash_timeout_seconds is None:\n                    return None\n                if state != RunLifecycleState.releasing or (\n                    state == RunLifecycleState.releasing\n                    and crash_timeout_seconds is not None\n                    and (datetime.now(timezone.utc) - row[\"updated_at\"])", "C26.R4"),
     Twin("R4 benign: resume guard as nested early returns", _LIFE, "                if state == RunLifecycleState.released or (\n                    state == RunLifecycleState.releasing\n                    and crash_timeout_seconds is not None\n                    and (datetime.now(timezone.utc) - row[\"updated_at\"]).total_seconds()\n                    > crash_timeout_seconds\n                ):\n                    await conn.execute(", "                if state == RunLifecycleState.releasing:\n                    if crash_timeout_seconds is None or not (datetime.now(timezone.utc) - row[\"updated_at\"]).total_seconds() > crash_timeout_seconds:\n                        return RunLifecycleState.releasing\n                if True:\n                    await conn.execute(", None),
+    # ---- R4 resume guard when `released` and timed-out `releasing` are claimed by separate branches with one UPDATE each
+    Twin("R4 benign: released / timed-out releasing claimed in two early-return branches, operands of `>` swapped", _LIFE, _R4_PG_OLD,
+         _R4_PG_REL + _R4_PG_UPD + _R4_PG_TMO + _R4_PG_UPD, None),
+    Twin("R4 two claiming branches, the `releasing` one without the crash timeout", _LIFE, _R4_PG_OLD,
+         _R4_PG_REL + _R4_PG_UPD + "                if state == RunLifecycleState.releasing:\n" + _R4_PG_UPD, "C26.R4"),
+    Twin("R4 two claiming branches, the timeout comparison of the `releasing` one inverted", _LIFE, _R4_PG_OLD,
+         _R4_PG_REL + _R4_PG_UPD + _R4_PG_TMO.replace("crash_timeout_seconds < (", "crash_timeout_seconds > (") + _R4_PG_UPD, "C26.R4"),
+    Twin("R4 two claiming branches, the `released` one lost: only a timed-out `releasing` row is ever claimed", _LIFE, _R4_PG_OLD,
+         _R4_PG_TMO + _R4_PG_UPD, "C26.R4"),
+    Twin("R4 two claiming branches, the first one tests `active` instead of `released`", _LIFE,
+         "                if state == RunLifecycleState.active:\n                    return None\n" + _R4_PG_OLD,
+         "                if state == RunLifecycleState.active:\n" + _R4_PG_UPD + _R4_PG_TMO + _R4_PG_UPD, "C26.R4"),
+    Twin("R4 two claiming branches, `released` reported without its UPDATE", _LIFE, _R4_PG_OLD,
+         _R4_PG_REL + "                    return RunLifecycleState.released\n" + _R4_PG_TMO + _R4_PG_UPD, "C26.R4"),
     Twin("R5 resume does not await the old workflow", _DBI, "            handle = await DBOS.retrieve_workflow_async(run_id)\n            await handle.get_result()\n", "            handle = await DBOS.retrieve_workflow_async(run_id)\n            handle.get_status\n", "C26.R5"),
     Twin("R5 resume for any non-active state", _DBI, "            if result == RunLifecycleState.released:\n", "            if result != RunLifecycleState.active:\n", "C26.R5"),
     Twin("R5 benign: reversed comparison", _DBI, "            if result == RunLifecycleState.released:\n", "            if RunLifecycleState.released == result:\n", None),
